@@ -157,6 +157,20 @@ func (r *testifyRun) recorder(e *expState, kind string, ft reflect.Type, outs fu
 	})
 }
 
+// untypedArg boxes v as an interface{} argument the way a caller writing Return(nil, err) does:
+// a nil pointer, slice, map, chan, func or interface becomes the untyped nil.
+func untypedArg(v reflect.Value) reflect.Value {
+	iv := reflect.New(reflect.TypeOf((*interface{})(nil)).Elem()).Elem()
+	switch v.Kind() {
+	case reflect.Interface, reflect.Ptr, reflect.Slice, reflect.Map, reflect.Chan, reflect.Func:
+		if v.IsNil() {
+			return iv
+		}
+	}
+	iv.Set(v)
+	return iv
+}
+
 func (r *testifyRun) register(task, oi int, op Op) {
 	m := findMethod(r.methods, op.Method)
 	if m == nil {
@@ -209,7 +223,7 @@ func (r *testifyRun) register(task, oi int, op Op) {
 	}
 	e.provider = make([]bool, nOut)
 	style := op.Style
-	if nOut == 0 && (style == "return" || style == "providers" || style == "none") {
+	if nOut == 0 && (style == "return" || style == "providers" || style == "none" || style == "untyped-return") {
 		style = "none" // nothing to configure
 	}
 	if nOut == 0 && style == "run+return" {
@@ -252,12 +266,17 @@ func (r *testifyRun) register(task, oi int, op Op) {
 				} else {
 					v := r.resGen.Value(m.Type.Out(i))
 					e.retVals[i] = v
-					iv := reflect.New(reflect.TypeOf((*interface{})(nil)).Elem()).Elem()
-					if !(v.Kind() == reflect.Interface && v.IsNil()) {
-						iv.Set(v)
-					}
-					vals[i] = iv
+					vals[i] = untypedArg(v)
 				}
+			}
+			callV.Elem().FieldByName("Call").MethodByName("Return").Call(vals)
+		case "untyped-return":
+			// the classic testify form On(...).Return(v0, v1, …): values travel as interface{},
+			// a nil of any nillable type as the untyped nil
+			e.retVals = freshOuts()
+			vals := make([]reflect.Value, nOut)
+			for i, v := range e.retVals {
+				vals[i] = untypedArg(v)
 			}
 			callV.Elem().FieldByName("Call").MethodByName("Return").Call(vals)
 		case "none":
@@ -325,6 +344,31 @@ func (r *testifyRun) match(m *methodInfo, called []reflect.Value) *expState {
 	return strict
 }
 
+// invoke calls the mocked method. Under unroll-variadic: true the generated method hands testify
+// a list of its own, so a caller may spread a buffer (f(xs...)) and re-use it afterwards: every
+// other such call is made that way and the buffer is overwritten once the call is over. (With
+// unroll-variadic false/unset the slice itself is the recorded argument, by contract.)
+func (r *testifyRun) invoke(m *methodInfo, args argSet, seed uint64) []reflect.Value {
+	fn := r.mv.MethodByName(m.Name)
+	if !m.Variadic || !r.unroll || args.NVar == 0 || seed&1 == 0 {
+		return fn.Call(args.Vals)
+	}
+	n := m.Type.NumIn()
+	st := m.Type.In(n - 1)
+	buf := reflect.MakeSlice(st, args.NVar, args.NVar)
+	for i := 0; i < args.NVar; i++ {
+		buf.Index(i).Set(args.Vals[n-1+i])
+	}
+	r.tags["fault:variadic-buffer-reused-by-caller"] = true
+	defer func() {
+		g := &Gen{R: NewRng(seed ^ 0xb0ff), Prefix: "reused", Base: 77000000}
+		for i := 0; i < args.NVar; i++ {
+			buf.Index(i).Set(g.Value(st.Elem()))
+		}
+	}()
+	return fn.CallSlice(append(append([]reflect.Value(nil), args.Vals[:n-1]...), buf))
+}
+
 func (r *testifyRun) call(task, oi int, op Op, ops []Op) {
 	m := findMethod(r.methods, op.Method)
 	if m == nil {
@@ -348,12 +392,12 @@ func (r *testifyRun) call(task, oi int, op Op, ops []Op) {
 	e := r.match(m, r.calledArgs(m, args))
 	if r.ambiguous {
 		r.tags["probe:not-judged-anything-vs-missing-argument"] = true
-		safeCall(func() { r.mv.MethodByName(m.Name).Call(args.Vals) })
+		safeCall(func() { r.invoke(m, args, seed) })
 		return
 	}
 	errs0, fails0, cbs0 := len(r.t.Errors), r.t.FailNows, len(r.cbs)
 	var outs []reflect.Value
-	pv, panicked := safeCall(func() { outs = r.mv.MethodByName(m.Name).Call(args.Vals) })
+	pv, panicked := safeCall(func() { outs = r.invoke(m, args, seed) })
 	what := m.Name + args.Descr
 	var cbs []cbInv // callbacks run by this task during this operation (other tasks' interleave)
 	for _, cb := range r.cbs[cbs0:] {
@@ -703,7 +747,7 @@ func tokenMethod(m *methodInfo) bool {
 	return false
 }
 
-var tStyles = []string{"return", "return", "run+return", "runandreturn", "runandreturn", "providers", "none", "run"}
+var tStyles = []string{"return", "return", "run+return", "runandreturn", "runandreturn", "providers", "none", "run", "untyped-return"}
 
 func genTestifyCase(prop string, reg *Registration, cs *Case, ms []methodInfo, r *Rng) {
 	if prop == "C03" {
